@@ -155,6 +155,20 @@ struct OnePassIt {
 };
 static uint64_t one_pass_ranges = 0, slice_writes = 0;
 
+// Sizes: mostly small; one in sixteen is LARGE (hundreds of elements, around powers of two and in
+// between), because capacity policies tend to switch strategy above some size.
+template <typename T>
+static size_t pick_size(size_t small) {
+    if (below(16) != 0) return (size_t)below(small);
+    size_t cap = sizeof(T) > 1024 ? 140 : 700;
+    switch (below(4)) {
+        case 0: return 250 + (size_t)below(20);   // just below / above 256
+        case 1: return (size_t)below(cap);
+        case 2: return ((size_t)1 << (4 + below(6))) + (size_t)below(3) - 1;  // 2^k - 1 .. 2^k + 1
+        default: return 257 + (size_t)below(cap > 257 ? cap - 257 : 1);
+    }
+}
+
 template <typename T>
 static void run_vec(uint64_t nops, const char* tname) {
     using S = typename Elem<T>::S;
@@ -170,7 +184,7 @@ static void run_vec(uint64_t nops, const char* tname) {
                 sv[i].clear();
                 break;
             case 1: {
-                size_t n = (size_t)below(20);
+                size_t n = pick_size<T>(20);
                 rv[i] = resolvo::Vector<T>(n);
                 sv[i] = std::vector<S>(n, Elem<T>::dflt());
                 break;
@@ -192,7 +206,7 @@ static void run_vec(uint64_t nops, const char* tname) {
             case 4: {
                 std::vector<T> src;
                 std::vector<S> ssrc;
-                size_t n = (size_t)below(12);
+                size_t n = pick_size<T>(12);
                 for (size_t k = 0; k < n; ++k) {
                     uint32_t x = (uint32_t)below(1000);
                     src.push_back(Elem<T>::make(x));
@@ -307,7 +321,7 @@ static void run_vec(uint64_t nops, const char* tname) {
                 // range constructor fed by a single-pass input iterator
                 OnePassSrc<T> src;
                 std::vector<S> ssrc;
-                size_t n = (size_t)below(9);
+                size_t n = pick_size<T>(9);
                 for (size_t k = 0; k < n; ++k) {
                     uint32_t x = (uint32_t)below(1000);
                     src.keys.push_back(x);
